@@ -750,6 +750,152 @@ theorem remove_CellInv {s : CellStore} (h : CellInv s) {cell : Int} (hv : s.vali
     intro w; rw [h.adj w cell, hv]; simp
   exact push_CellInv h hv rfl rfl rfl rfl rfl (adjRemoveAll_spec (s.cellNodes cell) s.adj cell hpre).2
 
+
+/-! ### `ref_sort_unique_int` and `ref_cell_with` -/
+
+theorem mem_insertU {x y : Int} : ∀ {l : List Int}, y ∈ insertU x l ↔ y = x ∨ y ∈ l
+  | [] => by simp [insertU]
+  | z :: zs => by
+    unfold insertU
+    split
+    · simp
+    · split
+      · rename_i h; subst h; simp
+      · rw [List.mem_cons, mem_insertU (l := zs), List.mem_cons]
+        constructor
+        · rintro (h | h | h)
+          · exact Or.inr (Or.inl h)
+          · exact Or.inl h
+          · exact Or.inr (Or.inr h)
+        · rintro (h | h | h)
+          · exact Or.inr (Or.inl h)
+          · exact Or.inl h
+          · exact Or.inr (Or.inr h)
+
+theorem insertU_sorted {x : Int} : ∀ {l : List Int}, l.Pairwise (· < ·) → (insertU x l).Pairwise (· < ·)
+  | [], _ => by simp [insertU]
+  | z :: zs, h => by
+    obtain ⟨h1, h2⟩ := List.pairwise_cons.1 h
+    unfold insertU
+    split
+    · rename_i hlt
+      refine List.pairwise_cons.2 ⟨?_, h⟩
+      intro a ha
+      rcases List.mem_cons.1 ha with rfl | ha
+      · exact hlt
+      · have := h1 a ha; omega
+    · split
+      · exact h
+      · rename_i hnlt hne
+        refine List.pairwise_cons.2 ⟨?_, insertU_sorted h2⟩
+        intro a ha
+        rcases mem_insertU.1 ha with rfl | ha
+        · omega
+        · exact h1 a ha
+
+theorem mem_uniq {x : Int} : ∀ {l : List Int}, x ∈ uniq l ↔ x ∈ l
+  | [] => by simp [uniq]
+  | y :: ys => by
+    have ih := mem_uniq (x := x) (l := ys)
+    simp only [uniq, List.foldr_cons] at ih ⊢
+    rw [mem_insertU, ih, List.mem_cons]
+
+theorem uniq_sorted : ∀ (l : List Int), (uniq l).Pairwise (· < ·)
+  | [] => by simp [uniq]
+  | y :: ys => by
+    have ih := uniq_sorted ys
+    simp only [uniq, List.foldr_cons] at ih ⊢
+    exact insertU_sorted ih
+
+theorem sorted_ext : ∀ {a b : List Int}, a.Pairwise (· < ·) → b.Pairwise (· < ·) →
+    (∀ x, x ∈ a ↔ x ∈ b) → a = b
+  | [], [], _, _, _ => rfl
+  | [], y :: _, _, _, h => by have := (h y).2 (by simp); simp at this
+  | x :: _, [], _, _, h => by have := (h x).1 (by simp); simp at this
+  | x :: a', y :: b', ha, hb, h => by
+    obtain ⟨ha1, ha2⟩ := List.pairwise_cons.1 ha
+    obtain ⟨hb1, hb2⟩ := List.pairwise_cons.1 hb
+    have hxy : x = y := by
+      have h1 := (h x).1 (by simp)
+      have h2 := (h y).2 (by simp)
+      rcases List.mem_cons.1 h1 with e | h1
+      · exact e
+      · rcases List.mem_cons.1 h2 with e | h2
+        · exact e.symm
+        · have := hb1 x h1; have := ha1 y h2; omega
+    subst hxy
+    congr 1
+    apply sorted_ext ha2 hb2
+    intro z
+    constructor
+    · intro hz
+      have := (h z).1 (List.mem_cons_of_mem _ hz)
+      rcases List.mem_cons.1 this with e | h'
+      · have := ha1 z hz; omega
+      · exact h'
+    · intro hz
+      have := (h z).2 (List.mem_cons_of_mem _ hz)
+      rcases List.mem_cons.1 this with e | h'
+      · have := hb1 z hz; omega
+      · exact h'
+
+/-- `ref_sort_unique_int` is a canonical form of the *set* of entries -/
+theorem uniq_eq_iff {a b : List Int} : uniq a = uniq b ↔ ∀ x, x ∈ a ↔ x ∈ b := by
+  constructor
+  · intro h x; rw [← mem_uniq (l := a), h, mem_uniq]
+  · intro h
+    apply sorted_ext (uniq_sorted a) (uniq_sorted b)
+    intro x; rw [mem_uniq, mem_uniq]; exact h x
+
+theorem mem_first_iff {s : CellStore} (h : CellInv s) {v c : Int} :
+    c ∈ s.adj.first v ↔ s.validCell c = true ∧ v ∈ s.cellNodes c := by
+  rw [← List.count_pos_iff, h.adj v c]
+  split
+  · rename_i hv; rw [List.count_pos_iff]; simp [hv]
+  · rename_i hv; simp [hv]
+
+theorem withLoop_spec {s : CellStore} {target : List Int} :
+    ∀ (l : List Int), (∀ c ∈ l, s.validCell c = true) →
+      (∃ c, withLoop s target l = (.ok, c) ∧ c ∈ l ∧ uniq (s.cellNodes c) = target) ∨
+      (withLoop s target l = (.not_found, -1) ∧ ∀ c ∈ l, uniq (s.cellNodes c) ≠ target)
+  | [], _ => Or.inr ⟨rfl, by simp⟩
+  | ref :: rest, hl => by
+    have hv : s.validCell ref = true := hl ref (by simp)
+    unfold withLoop
+    simp only [hv, Bool.not_true, Bool.false_eq_true, if_false]
+    split
+    · rename_i heq
+      exact Or.inl ⟨ref, rfl, by simp, heq⟩
+    · rename_i hne
+      rcases withLoop_spec rest (fun c hc => hl c (by simp [hc])) with ⟨c, h1, h2, h3⟩ | ⟨h1, h2⟩
+      · exact Or.inl ⟨c, h1, by simp [h2], h3⟩
+      · refine Or.inr ⟨h1, ?_⟩
+        intro c hc
+        rcases List.mem_cons.1 hc with rfl | hc
+        · exact hne
+        · exact h2 c hc
+
+/-- `ref_cell_with`: finds a valid cell with the same vertex *set* iff one exists -/
+theorem with_spec {s : CellStore} (h : CellInv s) {nodes : List Int} (hlen : nodes.length = s.nodePer) :
+    (∃ c, s.withNodes nodes = (.ok, c) ∧ s.validCell c = true ∧ ∀ x, x ∈ s.cellNodes c ↔ x ∈ nodes) ∨
+    (s.withNodes nodes = (.not_found, -1) ∧
+      ¬ ∃ c, s.validCell c = true ∧ ∀ x, x ∈ s.cellNodes c ↔ x ∈ nodes) := by
+  have htake : nodes.take s.nodePer = nodes := by rw [← hlen]; exact List.take_length
+  have hvalid : ∀ c ∈ s.adj.first (nodes.getD 0 (-1)), s.validCell c = true :=
+    fun c hc => ((mem_first_iff h).1 hc).1
+  unfold withNodes
+  rw [htake]
+  rcases withLoop_spec (target := uniq nodes) _ hvalid with ⟨c, h1, h2, h3⟩ | ⟨h1, h2⟩
+  · exact Or.inl ⟨c, h1, hvalid c h2, uniq_eq_iff.1 h3⟩
+  · refine Or.inr ⟨h1, ?_⟩
+    rintro ⟨c, hv, hset⟩
+    have hpos : 0 < nodes.length := by rw [hlen]; exact h.per.1
+    have h0 : nodes.getD 0 (-1) ∈ nodes := by
+      rw [List.getD_eq_getElem?_getD, List.getElem?_eq_getElem hpos]
+      exact List.getElem_mem hpos
+    have hc : c ∈ s.adj.first (nodes.getD 0 (-1)) := (mem_first_iff h).2 ⟨hv, (hset _).2 h0⟩
+    exact h2 c hc (uniq_eq_iff.2 hset)
+
 end CellStore
 
 end Refine.Model.CellStore
